@@ -6,6 +6,8 @@ use vstd::prelude::*;
 
 verus! {
 
+//@ include _std_extra.inc
+
 // ---- assumed interface: headers.rs `Headers` -------------------------------------------------
 #[verifier::external_body]
 struct Headers {
